@@ -570,6 +570,7 @@ func (r *HarnessRun) concretize(e *Exec, t *Term, what string) int {
 	var vals []int
 	wits := map[int]map[string]*big.Int{}
 	var block []*Term
+	var tie, cv *Term
 	for {
 		var res SolveResult
 		if len(block) == 0 {
@@ -593,7 +594,28 @@ func (r *HarnessRun) concretize(e *Exec, t *Term, what string) int {
 		if fm != nil {
 			m = fm
 		}
-		v := r.b.Eval(t, m, map[int]*big.Int{})
+		v := func() (v *big.Int) {
+			defer func() {
+				if rec := recover(); rec != nil {
+					v = nil
+				}
+			}()
+			return r.b.Eval(t, m, map[int]*big.Int{})
+		}()
+		if v == nil {
+			// t contains uninterpreted functions (no evaluator): name it by a fresh variable tied to t
+			// in the query and read that variable from the solver's model
+			if tie == nil {
+				cv = r.b.Fresh("zzconc", t.S)
+				tie = r.b.Eq(cv, t)
+			}
+			res = r.query(append(append([]*Term{}, block...), tie), true, "concretize "+what)
+			if res.Status != "sat" || res.Model == nil || res.Model[cv.Name] == nil {
+				e.throw("limit", "cannot enumerate values of symbolic %s (%s)", what, res.Status)
+			}
+			fm = r.fullModel(res, r.lastFull)
+			v = res.Model[cv.Name]
+		}
 		sv := signedVal(int(t.S), v)
 		if !sv.IsInt64() {
 			e.throw("limit", "symbolic %s has huge value", what)
